@@ -92,16 +92,35 @@ def c19b(ck, prog):
         methods = [c.name for c in g.calls() if c.name in ("GET", "PUT", "POST", "PATCH", "DELETE") and "HandlerSet" in (c.callee or "")]
         ok2 = methods == ["GET"] and "new(" in d
         ck.ob(R, "GET-only", ok2, g.loc(reg[0].sp), "" if ok2 else "files are registered for methods %r" % methods, how="HandlerSet::new(route).GET(handler)")
-        # route = base_path + "/" + path.join("/")
+        # route = base_path + "/" + path.join("/"); the statements may sit in the closure, in `apply` (hoisted) or in a nested helper
+        family = [x for x in prog.fns.values() if x.key.startswith(f.key)]
+        g = prog.inlined(g, 2, lambda caller, callee: callee.key.startswith(f.key))
         joins = [(g.const_args(c)[1] or {}).get("s") for c in g.calls() if c.name == "join"]
-        adds = [(g.const_args(c)[1] or {}).get("s") for c in g.calls() if re.search(r"Add<&str>.*::add$", c.callee or "")]
-        trim = [(g.const_args(c)[1] or {}).get("ch") for c in g.calls() if c.name == "trim_end_matches"]
-        ok3 = joins == ["/"] and "/" in adds and trim == ["/"]
-        ck.ob(R, "route-shape", ok3, g.loc(None), "" if ok3 else "the registered route is not mount.trim_end('/') + '/' + segments.join('/') (join %r, add %r, trim %r)" % (joins, adds, trim), how="route.trim_end_matches('/') + \"/\" + path.join(\"/\")")
+        seps = []
+        for c in g.calls():
+            if re.search(r"Add<&str>.*::add$", c.callee or "") and (g.const_args(c)[1] or {}).get("s") == "/":
+                seps.append("+")
+            elif c.name == "concat" and re.search(r"array\{[^{}]*,const '/',", decision.describe_deep(g, c.args[0], 3)):
+                seps.append("concat")
+            elif c.name in ("push_str", "push") and len(c.args) > 1 and decision.describe_deep(g, c.args[1], 1) == "const '/'":
+                seps.append(c.name)
+            elif re.search(r"fmt::Arguments::<'a>::new", c.callee or "") and (g.const_args(c)[0] or {}).get("b"):
+                if any(x == "/" for x in format_literals(g.const_args(c)[0]["b"])[1:-1] or []):
+                    seps.append("format")
+        trim = [(x.const_args(c)[1] or {}).get("ch") for x in family for c in x.calls() if c.name == "trim_end_matches" and "route" in decision.describe_deep(x, c.args[0], 4)]
+        ok3 = joins == ["/"] and bool(seps) and trim == ["/"]
+        ck.ob(R, "route-shape", ok3, g.loc(None), "" if ok3 else "the registered route is not mount.trim_end('/') + '/' + segments.join('/') (join %r, separator %r, trim %r)" % (joins, seps, trim), how="route.trim_end_matches('/') + \"/\" + path.join(\"/\") (separator by %s)" % ",".join(seps))
+        # the route `/` alone is for the root mount only: a lone "/" is built only where the trimmed mount path is empty
+        lone = [c for c in g.calls() if re.search(r"From<&str>>::from$|Into<\w+>>::into$|ToString>::to_string$|ToOwned>::to_owned$", c.callee or "") and c.args and decision.describe_deep(g, c.args[0], 1) == "const '/'"]
+        for c in lone:
+            okl = paths.has_fact(g, prog, c.bb, lambda fa: fa.kind == "boolcall" and fa.truth and fa.call.name == "is_empty" and re.search(r"str|String", fa.call.callee or "")
+                                 and "join(" not in decision.describe_deep(g, fa.call.args[0], 5)) is not None
+            ck.ob(R, "route-root-only-for-empty-mount", okl, g.loc(c.sp), "" if okl else "the route `/` is registered on a path that has not established that the (trimmed) mount route is empty: the index file at the top of a directory mounted at `/docs` "
+                  "would be served at `/` instead of `/docs`", how="String `/` built under base_path.is_empty()")
     # index.html: own path unless html omitted; then directory path always
     calls = [c for c in f.calls() if re.search(r"FnMut<.*>::call_mut$|FnOnce<.*>::call_once$|Fn<.*>::call$", c.decl or "") or "apply::{closure" in (c.callee or "")]
     regcalls = [c for c in calls if "register" in decision.describe_deep(f, c.args[0], 2) or True]
-    regcalls = [c for c in f.calls() if (c.callee or "").endswith("apply::{closure#0}") or re.search(r"ops::function::FnMut::call_mut$", c.decl or "")]
+    regcalls = [c for c in f.calls() if re.search(r"ops::function::(FnMut::call_mut|FnOnce::call_once|Fn::call)$", c.decl or "") and reg and closure_def(f, c.args[0]) == reg[0].fn.key]
     conds = []
     for c in regcalls:
         cs = set()
@@ -115,7 +134,13 @@ def c19b(ck, prog):
     html = [c for c in conds if any(x == "!is_some_and" for x in c)]
     ok = len(regcalls) == 2 and len(uncond) == 1 and len(html) == 1
     ck.ob(R, "index.html", ok, f.loc(None), "" if ok else "registration conditions are %r; expected one unconditional registration per file and one more for index.html unless `html` is omitted" % conds, how="register(path) always; register(index.html path) unless html omitted")
-    eqs = [(f.const_args(c)[1] or {}).get("s") for c in f.calls() if c.name == "eq" and "str" in (c.callee or "")]
+    eqs = []
+    for c in f.calls():
+        if c.name in ("eq", "ne") and len(c.args) == 2:
+            for a in c.args:
+                m = re.fullmatch(r"const '(.*)'", decision.describe_deep(f, a, 2))
+                if m:
+                    eqs.append(m.group(1))
     clos = [g for g in prog.descendants(f.key)]
     conts = [(g.const_args(c)[1] or {}).get("s") for g in clos for c in g.calls() if c.name == "contains"]
     ok = "index.html" in eqs and "html" in conts
@@ -139,8 +164,12 @@ def c19b(ck, prog):
 
     # the stripped text is a *suffix* of the last segment: the new length comes from a match anchored at the end
     if len(tr) == 1:
-        d = decision.describe_deep(f, tr[0].args[1], 8)
-        d += " via " + ",".join(sorted(closure_calls(prog, f, tr[0].args[1]))) + "("
+        fv = prog.inlined(f, 2, lambda caller, callee: callee.key.startswith(f.key) and not callee.calls_to(r"register_handlers$"))
+        tv = [c for c in fv.calls_to(r"String::truncate$")]
+        tv = tv[0] if len(tv) == 1 else tr[0]
+        fv = fv if tv is not tr[0] else f
+        d = decision.describe_deep(fv, tv.args[1], 8)
+        d += " via " + "".join(x + "(," for x in sorted(closure_calls(prog, fv, tv.args[1])))
         anchored = re.search(r"\b(strip_suffix|rsplit_once|rfind|rsplit_terminator|rsplitn)\(", d) is not None
         ends = paths.has_fact(f, prog, tr[0].bb, lambda fa: fa.kind == "boolcall" and fa.truth and (
             fa.call.name == "ends_with" or (fa.call.name in ("is_some_and", "is_ok_and", "map_or") and any("ends_with" in closure_calls(prog, f, a) for a in fa.call.args)))) is not None
@@ -166,6 +195,37 @@ def closure_calls(prog, f, op, depth=6):
         g = prog.fns.get(last[1][1]["def"])
         if g is not None:
             out |= {c.name for c in g.calls()}
+            # closures handed to combinators inside the closure
+            for c in g.calls():
+                for a in c.args:
+                    st = g.origin(a)
+                    if st and st[-1][0] == "agg" and st[-1][1][1].get("k") == "closure":
+                        out |= closure_calls(prog, g, a, depth - 1)
+    return out
+
+
+def closure_def(f, op):
+    """key of the closure literal an operand (a reference to it) denotes, or None"""
+    st = f.origin(op)
+    if st and st[-1][0] == "agg" and st[-1][1][1].get("k") == "closure":
+        return st[-1][1][1].get("def")
+    return None
+
+
+def format_literals(template):
+    """literal pieces of a `format_args!` byte template ([0xC0 = next argument | n, n bytes of text]*, 0), with None for
+    every argument; used to see what separates two interpolated values"""
+    out, i = [], 0
+    while i < len(template):
+        b = template[i]
+        if b == 0:
+            break
+        if b >= 0x80:
+            out.append(None)
+            i += 1
+            continue
+        out.append(bytes(template[i + 1:i + 1 + b]).decode("utf-8", "replace"))
+        i += 1 + b
     return out
 
 
